@@ -488,7 +488,7 @@ theorem prologue_res (cfg : Cfg) (s : St) (hk : s.k.listdir.Nodup) (hp : NodupKe
               ∧ (todoPids todo).Pairwise (· < ·) ∧ (∀ p ∈ todoPids todo, p ∈ listed) ∧ NodupKeys pm
               ∧ (∀ e ∈ todo, e.2 = pm.get e.1)
               ∧ (prologue cfg s).1.flagged = []
-              ∧ (cfg.drainFirst = true → todoPids todo = listed
+              ∧ (cfg.drainFirst = true ∨ s.flagged = [] → todoPids todo = listed
                   ∧ pm = (s.pmap.filter fun e => !s.flagged.contains e.1).filter fun e => listed.contains e.1)) := by
   have hsorted := sortNat_sorted s.k.listdir hk
   unfold prologue
@@ -561,8 +561,29 @@ theorem prologue_res (cfg : Cfg) (s : St) (hk : s.k.listdir.Nodup) (hp : NodupKe
               exact ⟨hp', by simpa using hh⟩
             · simp at hp'
           · simp at hp')
-        obtain ⟨k1, k2, k3, _⟩ := key
-        exact ⟨k1, k2, hpm2, k3, trivial, by intro h; cases h⟩
+        obtain ⟨k1, k2, k3, k4⟩ := key
+        refine ⟨k1, k2, hpm2, k3, trivial, ?_⟩
+        intro hor
+        have hfl : s.flagged = [] := by
+          rcases hor with h | h
+          · cases h
+          · exact h
+        have hfl1 : s1.flagged = [] := by rw [h4, hfl]
+        have htrue : ∀ (m : PMap), (m.filter fun e => !([] : List Nat).contains e.1) = m := by
+          intro m
+          induction m with
+          | nil => rfl
+          | cons e es ih =>
+            simp only [List.contains_nil, Bool.not_false] at ih ⊢
+            simp only [List.filter_cons, if_true]
+            rw [ih]
+        refine ⟨k4 ?_, ?_⟩
+        · intro p hpa hsome
+          rw [hfl1, htrue, get_filter _ (fun q => a.contains q)]
+          have hac : a.contains p = true := by simpa using hpa
+          rw [hac]
+          exact hsome
+        · rw [hfl1, hfl, htrue, htrue]
 
 
 /-! ## the invariant -/
